@@ -314,7 +314,7 @@ def check_fixed_render(res, model, rng, req=None, lines=None):
     ol.cleanup_scratch()
 
 
-def check_selection(res, rng):
+def check_selection(res, rng, model=None):
     """a solver / device / method selection the tool does not support is refused or kept as given - never silently replaced"""
     triples = [("cvode", "cpu", "cusparse"), ("cvode", "gpu", "sparse"), ("cvode", "gpu", "dense"), ("cvode", "cpu", "Sparse"),
                ("odeint", "cpu", "dense"), ("odeint", "cpu", "sparse"), ("cvode", "cpu", "rosenbrock4"),
@@ -328,7 +328,14 @@ def check_selection(res, rng):
         (d / req["files"][0]).write_text("\n".join(UCL_LINES) + "\n")
         rc, out, err = run_init(d, o, rms, oms)
         case = {"kind": "c20-selection", "solver": solver, "device": device, "method": method}
-        if rc == 0 and (d / "naunet_config.toml").exists():
+        accepted = rc == 0 and (d / "naunet_config.toml").exists()
+        if model is not None:
+            # C20.selection_kept_or_refused / live_selection_table: the model's verdict on the table read from init.py
+            m = model.call("cfg.select", solver, device, method)
+            if (m[0] == "kept") != accepted:
+                res.corr_disagreements += 1
+                res.violation("correspondence", f"selection {solver}/{device}/{method}: `naunet init` {'accepts' if accepted else 'refuses'}, the model says {m}", case)
+        if accepted:
             odesolver = tomlkit.loads((d / "naunet_config.toml").read_text()).get("ODEsolver", {})
             got = (odesolver.get("solver"), odesolver.get("device"), odesolver.get("method"))
             if got != (solver, device, method):
@@ -427,7 +434,7 @@ def run(res, info):
     check_fixed_render(res, model, rng, yield_only_request(), UCL_LINES + UCL_EXTRA)
     for i in range(5 if res.tier == "quick" else 60):
         check_export(res, rng, i)
-    check_selection(res, rng)
+    check_selection(res, rng, model)
     findings(res, model)
     if model:
         model.close()
